@@ -38,6 +38,8 @@ func runC02(c *Ctx) {
 	defer c02WipedBuffers(c)
 	c.Rule("C02.R11", "an HTTP/2 body handed to the proxy is a copy: a view of the connection read buffer would be overwritten by the next exchange's bytes (header and body from different exchanges)", 2)
 	defer c01H2BodyCopied(c, "C02.R11")
+	c.Rule("C02.R14", "HTTP/1 downstream: the next request is read only after this response has been written", 1)
+	defer c02HTTP1OneExchangeAtATime(c)
 	c.Rule("C02.R12", "a decoded xprotocol frame never aliases the connection read buffer (its body would become the next exchange's bytes)", 20)
 	defer c01Alias(c, "C02.R12")
 	c.Rule("C02.R13", "a client stream is reset only with a reason for which the ping-pong pool closes the connection, or on a closed connection (a re-pooled connection delivers the abandoned exchange's late response to the next request)", 6)
@@ -658,4 +660,37 @@ func isZeroAggregate(v ssa.Value) bool {
 		}
 	}
 	return false
+}
+
+// c02HTTP1OneExchangeAtATime (R14): on an HTTP/1 downstream connection the next request is read only after this response
+// has been written. serverStreamConnection.serve blocks on responseDoneChan before it reads and dispatches the next
+// (possibly pipelined) request - the only thing that orders consecutive exchanges on the connection; the write lock
+// orders single Write calls only. Releasing the read loop before the response is on the wire lets the next answer overtake
+// (or cut into) this one, and an HTTP/1 client matches answers to requests by position. Clause: every send on
+// responseDoneChan in the server stream is preceded by doSend() on every path.
+func c02HTTP1OneExchangeAtATime(c *Ctx) {
+	pkg := "pkg/stream/http"
+	n := 0
+	ord := ordCounter{}
+	for _, fn := range c.PkgFuncs(pkg) {
+		forEachInstr(fn, false, func(f *ssa.Function, in ssa.Instruction) {
+			sd, ok := in.(*ssa.Send)
+			if !ok {
+				return
+			}
+			if _, fld, _, okf := loadedField(sd.Chan); !okf || fld != "responseDoneChan" {
+				return
+			}
+			n++
+			isSend := func(x ssa.Instruction) bool {
+				ci, isC := x.(ssa.CallInstruction)
+				return isC && methodName(ci.Common()) == "doSend"
+			}
+			early := existsPath(f, nil, func(x ssa.Instruction) bool { return x == in }, isSend) != nil
+			c.Check("C02.R14", ord.next(f, "response-written-before-next-request"), sd.Pos(), !early, "the read loop is released only after doSend()", "the HTTP/1 server stream releases the connection's read loop (responseDoneChan) on a path on which the response has not been written yet: a pipelined next request is dispatched and its answer can be written before - or in the middle of - this response, so the client attributes it to the wrong request")
+		})
+	}
+	if n < 1 {
+		c.Unresolved("C02.R14", "the send on serverStream.responseDoneChan")
+	}
 }
